@@ -16,7 +16,8 @@ GenEnv ==
     \/ \E p \in Party : \E en \in OpenEntities : Sign(p, p, en) /\ UNCHANGED cnt
     \/ cnt.early < 3 /\ sm.state = "ready" /\ (\E p \in Party : \E en \in CurrentEntities : SignEarly(p, p, en))
           /\ cnt' = [cnt EXCEPT !.early = @ + 1]
-    \/ cnt.relabels < 2 /\ (\E p, lbl \in Party : \E en \in OpenEntities : p # lbl /\ Sign(p, lbl, en))
+    \/ cnt.relabels < 3 /\ (\E p, lbl \in Party : \E en \in OpenEntities :
+                               p # lbl /\ (Sign(p, lbl, en) \/ SignRelabelRefused(p, lbl, en)))
           /\ cnt' = [cnt EXCEPT !.relabels = @ + 1]
     \/ cnt.late < 6 /\ (\E p \in Party : \E en \in OpenEntities : SignLate(p, en)) /\ cnt' = [cnt EXCEPT !.late = @ + 1]
     \/ cnt.bad < 4 /\ (\E p, lbl \in Party : \E en \in OpenEntities : SignBad(p, lbl, en)) /\ cnt' = [cnt EXCEPT !.bad = @ + 1]
